@@ -52,6 +52,9 @@ LineOk(r) ==
     [] r.op = "keyExpand" -> r.out = KeyExpandOctets(r.key)
     [] r.op = "wblE"     -> r.out = WBLEncr(r.in, r.key)
     [] r.op = "wblD"     -> r.out = WBLDecr(r.in, r.key)
+    [] r.op = "macT"     -> Ok0(r) /\ r.out = SubSeq(MAC(r.in, r.key), 1, Len(r.out))
+    [] r.op = "hashT"    -> Ok0(r) /\ r.out = SubSeq(Hash(r.in), 1, Len(r.out))
+    [] r.op = "hmacT"    -> Ok0(r) /\ r.out = SubSeq(HMAC(r.key, r.in), 1, Len(r.out))
     [] r.op = "wblR"     -> r.out = WBLEncrFrom(r.in, r.key, r.k)
     [] r.op = "compr"    -> r.out = Sigma2(r.in) /\ r.tag = Sigma1(r.in)
     [] r.op = "ecbE"     -> Ok0(r) /\ r.out = ECBEncr(r.in, r.key)
